@@ -68,6 +68,9 @@ def gen_scenario(rng):
         "dirty": rng.random() < 0.3, "allow_dirty": rng.random() < 0.5,
         "gate_ok": rng.random() < 0.9, "unique_ok": rng.random() < 0.85, "rewrite_ok": rng.random() < 0.9,
         "fail_at": rng.choice([None, None] + list(range(0, 16))),
+        # the config file is BEHIND the newest tag (a checkout of an older branch): the update starts from the tag, and that — not the
+        # config value — is the old version the hooks have to see
+        "cfg_behind": rng.random() < 0.3,
         "nfiles": rng.randint(1, 3),
     }
     # config-level consistency (the config reader rejects tag/push without commit: a different code path)
@@ -77,6 +80,8 @@ def gen_scenario(rng):
         sc["remote"] = "url"
     # the uniqueness check only runs (and can only fail independently of the start version) for
     # branch scope, or for --set-version together with --ignore-vcs-tag
+    if sc["ignore_vcs_tag"] or not sc["vcs_present"] or sc["fail_at"] is not None:
+        sc["cfg_behind"] = False
     eff_branch = sc["cfg_branch"] if sc["cli_branch"] is None else sc["cli_branch"]
     if not (eff_branch or (sc["ignore_vcs_tag"] and sc["set_version"])):
         sc["unique_ok"] = True
@@ -107,7 +112,7 @@ def run_impl(sc):
     """the same scenario on the real `bumpver update`; returns {"trace": [...], "exit": n} plus observations"""
     files = ["bumpver.toml"] + ["f%d.txt" % i for i in range(1, sc["nfiles"])]
     with sandbox.Project("c10") as pr:
-        cfg = ['[bumpver]', 'current_version = "1.2.3"', 'version_pattern = "MAJOR.MINOR.PATCH"',
+        cfg = ['[bumpver]', 'current_version = "%s"' % ("1.2.1" if sc.get("cfg_behind") else "1.2.3"), 'version_pattern = "MAJOR.MINOR.PATCH"',
                'commit = %s' % str(sc["cfg_commit"]).lower(), 'tag = %s' % str(sc["cfg_tag"]).lower(), 'push = %s' % str(sc["cfg_push"]).lower(),
                'tag_message = "%s"' % ("" if sc["tag_msg_empty"] else "release {new_version}"),
                'tag_scope = "%s"' % ("branch" if sc["cfg_branch"] else "default")]
@@ -136,7 +141,7 @@ def run_impl(sc):
             pr.add_fake_vcs(sc["kind"])
         else:
             pr.add_fake_vcs(sc["kind"])
-            os.rmdir(pr.path("." + sc["kind"]))
+            pr.drop_vcs_marker(sc["kind"])
         for which in ("pre", "post"):
             if sc[which] != "absent":
                 pr.add_hook("%s_hook.sh" % which, fail=(sc[which] == "fail"), mode=sc.get("fail_mode", "exit7"))
